@@ -56,9 +56,26 @@ Definition os_push_newline (f : ofmt) (o : ostream) (ind : option (option Z)) : 
 Definition os_push_newline_int (f : ofmt) (o : ostream) (n : Z) : ostream :=
   os_push_newline f o (if (n =? 0)%Z then None else Some (Some n)).
 
+(* re_line_break.split(value) minus a trailing empty line: lines are separated by CR, LF or CRLF
+   only (repaired: str.splitlines() also broke at \f, \v, U+001C-1E, U+0085, U+2028/9) *)
+Fixpoint split_crlf_aux (s : str) (cur : str) : list str :=
+  match s with
+  | [] => match cur with [] => [] | _ => [rev cur] end
+  | c :: s' =>
+      if ((c =? c_cr) || (c =? c_nl))%N then
+        match s' with
+        | c2 :: s'' => if ((c =? c_cr) && (c2 =? c_nl))%N
+                       then rev cur :: split_crlf_aux s'' []
+                       else rev cur :: split_crlf_aux s' []
+        | [] => [rev cur]
+        end
+      else split_crlf_aux s' (c :: cur)
+  end.
+Definition split_crlf (s : str) : list str := split_crlf_aux s [].
+
 (* push_string(value): line by line *)
 Definition os_push_string (f : ofmt) (o : ostream) (s : str) : ostream :=
-  match splitlines s with
+  match split_crlf s with
   | [] => o
   | l0 :: ls =>
       fold_left (fun o' l => os_push (os_push_newline f o' (Some None)) l) ls (os_push o l0)
